@@ -18,8 +18,8 @@ Inductive rval : Type :=
 | RInt (z : Z)
 | RFlt (q : Q)
 | RStr (s : ustring)
-| RNone
-| RSome (v : rval)
+| ROptNone
+| ROptSome (v : rval)
 | RSeq (l : list rval)                       (* Vec, Set, tuple, array *)
 | RMap (kvs : list (ustring * rval))         (* maps with string-like keys *)
 | RStruct (fs : list (ustring * rval))       (* by Rust field identifier *)
@@ -102,7 +102,7 @@ Section Serde.
     | O => None
     | S f =>
         match get_det T i with
-        | Some (DOption _) => Some RNone
+        | Some (DOption _) => Some ROptNone
         | Some (DVec _) | Some (DSet _) => Some (RSeq [])
         | Some (DMap _ _) => Some (RMap [])
         | Some DUnit => Some RUnit
@@ -129,7 +129,7 @@ Section Serde.
       | PDefault v => de (p_ty p) v
       | PRequired =>
           match get_det T (p_ty p) with
-          | Some (DOption _) => Some RNone        (* serde: a missing Option field is None *)
+          | Some (DOption _) => Some ROptNone        (* serde: a missing Option field is None *)
           | _ => None
           end
       end.
@@ -330,10 +330,10 @@ Section Serde.
             | DJsonValue => Some (RJson j)
             | DOption t =>
                 match j with
-                | JNull => Some RNone
+                | JNull => Some ROptNone
                 | _ => match get_det T t with
                        | Some (DOption _) => de f t j       (* Option<Option<T>> is rendered Option<T> *)
-                       | _ => option_map RSome (de f t j)
+                       | _ => option_map ROptSome (de f t j)
                        end
                 end
             | DBox t => de f t j
@@ -389,7 +389,7 @@ Section Serde.
     match p_state p with
     | POptional =>
         match get_det T (p_ty p), x with
-        | Some (DOption _), RNone => true
+        | Some (DOption _), ROptNone => true
         | Some (DVec _), RSeq [] => true
         | Some (DMap _ _), RMap [] => true
         | _, _ => false
@@ -483,12 +483,13 @@ Section Serde.
             | DString, RStr s => Some (JStr s)
             | DUnit, RUnit => Some JNull
             | DJsonValue, RJson j => Some j
-            | DOption _, RNone => Some JNull
-            | DOption t, RSome y => ser f t y
-            | DOption t, y => match get_det T t with
-                              | Some (DOption _) => ser f t y
-                              | _ => None
-                              end
+            | DOption t, _ =>
+                match get_det T t, x with
+                | Some (DOption _), _ => ser f t x      (* Option<Option<T>> is rendered Option<T> *)
+                | _, ROptNone => Some JNull
+                | _, ROptSome y => ser f t y
+                | _, _ => None
+                end
             | DBox t, _ => ser f t x
             | DVec t, RSeq l | DSet t, RSeq l | DArray t _, RSeq l => option_map JArr (mapM (ser f t) l)
             | DTuple ts, RSeq l => option_map JArr (zipM (ser f) ts l)
@@ -519,14 +520,18 @@ Section Serde.
     | _ => false
     end.
 
-  Fixpoint sup (fuel : nat) (i : id) {struct fuel} : bool :=
+  Definition mem_id (i : id) (l : list id) : bool := existsb (N.eqb i) l.
+
+  Fixpoint sup_go (fuel : nat) (seen : list id) (i : id) {struct fuel} : bool :=
     match fuel with
-    | O => true     (* cut: recursive types are supported if one unrolling is *)
+    | O => true     (* cut *)
     | S f =>
+        if mem_id i seen then true else
+        let seen' := i :: seen in
         let sup_props := fun (ps : list prop) =>
-          forallb (fun p => sup f (p_ty p) &&
+          forallb (fun p => sup_go f seen' (p_ty p) &&
                             match p_state p with
-                            | POptional => match default_val (S f) (p_ty p) with Some _ => true | None => false end
+                            | POptional => match default_val 8 (p_ty p) with Some _ => true | None => false end
                             | _ => true
                             end) ps &&
           (match flat_props ps with
@@ -541,12 +546,12 @@ Section Serde.
             | DBoolean | DString | DUnit | DJsonValue => true
             | DInteger n => match int_range_u n with Some _ => true | None => false end
             | DFloat _ => true
-            | DOption t | DBox t | DVec t | DSet t | DArray t _ => sup f t
-            | DTuple ts => forallb (sup f) ts
-            | DMap k v => key_ok f k && sup f v
+            | DOption t | DBox t | DVec t | DSet t | DArray t _ => sup_go f seen' t
+            | DTuple ts => forallb (sup_go f seen') ts
+            | DMap k v => key_ok f k && sup_go f seen' v
             | DNative _ _ ps => match ps with [] => true | _ => false end
             | DNewtype _ _ inner c =>
-                sup f inner &&
+                sup_go f seen' inner &&
                 match c with
                 | CString _ _ _ => match get_det T inner with Some DString => true | _ => false end
                 | _ => true
@@ -555,8 +560,8 @@ Section Serde.
             | DEnum _ _ tag vs _ _ =>
                 forallb (fun v => match v_det v with
                                   | VSimple => true
-                                  | VItem t => sup f t
-                                  | VTuple ts => forallb (sup f) ts &&
+                                  | VItem t => sup_go f seen' t
+                                  | VTuple ts => forallb (sup_go f seen') ts &&
                                                  match tag with TagInternal _ => false | _ => true end
                                   | VStruct ps => sup_props ps
                                   end) vs
@@ -564,4 +569,6 @@ Section Serde.
             end
         end
     end.
+
+  Definition sup (fuel : nat) (i : id) : bool := sup_go fuel [] i.
 End Serde.
